@@ -99,10 +99,15 @@ class Packer(object):
 
             params_tensors = [params_tensors[i] for i in unique_idxs]
 
+        # the element counts go with the shapes: the flat constructor needs both
         if unique:
             self._unique_tensor_shapes = [p.shape for p in params_tensors]
+            self._unique_tensor_numels = [p.numel() for p in params_tensors]
+            self._unique_tensor_numel_tot = sum(self._unique_tensor_numels)
         else:
             self._tensor_shapes = [p.shape for p in params_tensors]
+            self._tensor_numels = [p.numel() for p in params_tensors]
+            self._tensor_numel_tot = sum(self._tensor_numels)
             # the caller gets a list of its own, not the Packer's cache
             params_tensors = list(params_tensors)
 
